@@ -99,6 +99,35 @@ Check c27_label_ok : forall t page,
   spec_label_ok t page (get_label t page) = true.
 Print Assumptions c27_label_ok.
 
+(** the tree is a state machine only through its range set: after ANY interleaving of add_range,
+    get_label, get_all_labels and to_dict, a lookup answers from the ranges added so far ... *)
+Theorem c27_history_lookup : forall ops p,
+  run_ops [] (ops ++ [SGet p]) = run_ops [] ops ++ [SOLabel (get_label (build (adds_of ops)) p)].
+Proof. exact history_lookup. Qed.
+Check c27_history_lookup : forall ops p,
+  run_ops [] (ops ++ [SGet p]) = run_ops [] ops ++ [SOLabel (get_label (build (adds_of ops)) p)].
+Print Assumptions c27_history_lookup.
+
+(** ... and that answer is the label §12.4.2 defines for the current range set *)
+Theorem c27_history_lookup_ok : forall ops p,
+  (forall k l, In (k, l) (adds_of ops) -> (l_start l <= u32_max)%N) -> (p <= u32_max)%N ->
+  known_letters_class (build (adds_of ops)) p = false ->
+  spec_label_ok (build (adds_of ops)) p (get_label (state_after [] ops) p) = true.
+Proof. exact history_lookup_ok. Qed.
+Check c27_history_lookup_ok : forall ops p,
+  (forall k l, In (k, l) (adds_of ops) -> (l_start l <= u32_max)%N) -> (p <= u32_max)%N ->
+  known_letters_class (build (adds_of ops)) p = false ->
+  spec_label_ok (build (adds_of ops)) p (get_label (state_after [] ops) p) = true.
+Print Assumptions c27_history_lookup_ok.
+
+Example c27_history_nonvacuous :
+  let r := {| l_style := SLowerRoman; l_prefix := None; l_start := 1%N |} in
+  let d := {| l_style := SDecimal; l_prefix := None; l_start := 1%N |} in
+  let a := {| l_style := SUpperLetters; l_prefix := Some [65; 112; 112; 45]%N; l_start := 1%N |} in
+  run_ops [] [SAdd 0 r; SAdd 10 d; SGet 4; SAdd 9 a; SGet 9; SGet 10]
+  = [SOLabel (RLabel [118]%N); SOLabel (RLabel [65; 112; 112; 45; 65]%N); SOLabel (RLabel [49]%N)].
+Proof. exact history_nonvacuous. Qed.
+
 (** the written number tree, read by a Table-159 reader, gives back the authored ranges *)
 Theorem c27_written_labels_read_back : forall t, read_nums (tree_to_dict t) = Some t.
 Proof. exact written_labels_read_back. Qed.
